@@ -778,8 +778,10 @@ class Problem:
         self._maxcv_filter = []
         self._x_filter = []
 
-        # Set the number of evaluations of the problem.
+        # Set the number of evaluations of the problem, and the objective
+        # function value returned by the last of them.
         self._n_eval = 0
+        self._fun_last = np.nan
 
         # Set the initial history.
         self._store_history = store_history
@@ -820,6 +822,7 @@ class Problem:
         fun_val = self._obj(x_full)
         cub_val, ceq_val = self._nonlinear(x_full)
         self._n_eval += 1
+        self._fun_last = fun_val
         maxcv_val = self.maxcv(x, cub_val, ceq_val)
         if self._store_history:
             self._fun_history.append(fun_val)
@@ -973,6 +976,21 @@ class Problem:
             Number of function evaluations.
         """
         return self._n_eval
+
+    @property
+    def fun_last(self):
+        """
+        Objective function value at the last evaluated point.
+
+        This is the value returned by the objective function itself: the
+        extreme barrier is not applied to it.
+
+        Returns
+        -------
+        float
+            Objective function value at the last evaluated point.
+        """
+        return self._fun_last
 
     @property
     def fun_name(self):
